@@ -951,6 +951,80 @@ class Extractor(object):
             out[n] = vals[0] if len(vals) == 1 else ("phi", tuple(vals))
         return out
 
+    def _literal_elements(self, s, env, guards, loops):
+        """the rows of a ``for`` loop over a literal list/tuple/dict (written in place, or a never-mutated local bound to one):
+        a list of terms, or None.  Not unrolled: loops with break/continue, more than 12 rows, non-literal iterables."""
+        if self._jumps_of(s.body):
+            return None
+        node = s.iter
+        kind = None
+        if isinstance(node, ast.Call) and isinstance(node.func, ast.Attribute) and not node.args and not node.keywords \
+                and node.func.attr in _KEYS + _VALUES + _ITEMS:
+            kind = "keys" if node.func.attr in _KEYS else "values" if node.func.attr in _VALUES else "items"
+            node = node.func.value
+        lit = None
+        if isinstance(node, (ast.List, ast.Tuple)) and kind is None:
+            lit = node
+        elif isinstance(node, ast.Dict):
+            lit = node
+        elif isinstance(node, ast.Name) and node.id in env and node.id not in self.params:
+            v = env[node.id]
+            if v[0] == "tuple" and kind is None:
+                rows = list(v[1])
+                if any(r[0] == "starred" for r in rows) or len(rows) > 12 or not rows:
+                    return None
+                return rows
+            if v[0] == "local" and v[3][0] in ("list", "tuple", "dict"):
+                # the local must not have been touched since its creation
+                for ev in self.events:
+                    for t in (ev.value, ev.target):
+                        if t is not None and ev.kind in ("call", "store", "del") and contains(t, lambda x: x[0] == "local" and x[1:3] == v[1:3]) \
+                                and not (ev.kind == "bind"):
+                            return None
+                init = v[3]
+                if init[0] == "dict":
+                    rows = {"keys": [k for k, _ in init[1]], "values": [x for _, x in init[1]],
+                            "items": [("tuple", (k, x)) for k, x in init[1]], None: [k for k, _ in init[1]]}[kind]
+                elif kind is None:
+                    rows = list(init[1])
+                else:
+                    return None
+                if any(r[0] == "starred" for r in rows) or len(rows) > 12 or not rows:
+                    return None
+                return rows
+            return None
+        if lit is None:
+            return None
+        t = self.expr(lit, env, guards, loops)
+        if t[0] == "dict":
+            if any(k == ("const", "**") for k, _ in t[1]):
+                return None
+            rows = {"keys": [k for k, _ in t[1]], "values": [x for _, x in t[1]],
+                    "items": [("tuple", (k, x)) for k, x in t[1]], None: [k for k, _ in t[1]]}[kind]
+        else:
+            rows = list(t[1])
+        if any(r[0] == "starred" for r in rows) or len(rows) > 12 or not rows:
+            return None
+        return rows
+
+    @staticmethod
+    def _jumps_of(stmts):
+        """break/continue statements belonging to the loop whose body is ``stmts``"""
+        def rec(ss):
+            for x in ss:
+                if isinstance(x, (ast.Break, ast.Continue)):
+                    return True
+                if isinstance(x, (ast.For, ast.While, ast.FunctionDef, ast.ClassDef, ast.AsyncFor)):
+                    continue
+                for fld in ("body", "orelse", "finalbody"):
+                    if rec(getattr(x, fld, []) or []):
+                        return True
+                for h in getattr(x, "handlers", []) or []:
+                    if rec(h.body):
+                        return True
+            return False
+        return rec(stmts)
+
     @staticmethod
     def _breaks_of(stmts):
         """does the loop body contain a ``break`` that belongs to this loop?"""
@@ -1087,6 +1161,19 @@ class Extractor(object):
                 return True, env_b, pg + ((test, False),)
             return False, None, ()
         if isinstance(s, (ast.For, ast.While)):
+            if isinstance(s, ast.For) and not s.orelse:
+                elems = self._literal_elements(s, env, guards, loops)
+                if elems is not None:
+                    # a loop over a literal table is the table's rows written out: unroll it (table-driven and explicit code
+                    # then produce the same events)
+                    env = dict(env)
+                    for e_ in elems:
+                        self.bind(s.target, e_, env, guards, loops, s)
+                        ft, env2 = self.block(s.body, env, guards, loops)
+                        if not ft:
+                            return False, None, ()
+                        env = env2
+                    return True, env, ()
             lid = self._next("loop")
             self.loop_guards[lid] = guards
             assigned = self._assigned_names(s.body)
